@@ -221,9 +221,13 @@ class Parser(with_metaclass(_ParserMeta, Node)):
         self._debug = d
         return self
 
+    # what Opt yields in sep_by when there is no first element; a first element
+    # that is falsy (0, "", None, False, []) is still an element
+    _NO_FIRST = object()
+
     @staticmethod
     def _accumulate(first, rest):
-        results = [first] if first else []
+        results = [] if first is Parser._NO_FIRST else [first]
         if rest:
             results.extend(rest)
         return results
@@ -233,7 +237,7 @@ class Parser(with_metaclass(_ParserMeta, Node)):
         Return a parser that matches zero or more instances of the current
         parser separated by instances of the parser sep.
         """
-        return Lift(self._accumulate) * Opt(self) * Many(sep >> self)
+        return Lift(self._accumulate) * Opt(self, Parser._NO_FIRST) * Many(sep >> self)
 
     def until(self, pred):
         """
